@@ -1,5 +1,10 @@
 import PV.C18.Model
 import PV.C18.Spec
+/-
+  C18 — helper lemmas for `PV/C18/Thm.lean` (grouping arithmetic, padding, the stage-by-stage
+  comparison of the two spec parsers, and the per-type comparison of `format_int` /
+  `format_string` with the reference).
+-/
 namespace PV.C18
 open Spec
 
@@ -356,7 +361,7 @@ theorem chkI32_ok (i : Int) (h1 : -(2 ^ 31 : Int) ≤ i) (h2 : i < 2 ^ 31) : chk
   unfold chkI32; rw [if_pos ⟨h1, h2⟩]
 
 theorem formatSignAndAlign_eq (spec : FormatSpec) (mag sign : List Nat) (n : Nat) (dflt : Align)
-    (hw : ∀ w, spec.width = some w → w < 2 ^ 31) (hm : n < 2 ^ 30) (hs : sign.length < 2 ^ 30)
+    (hw : ∀ w, spec.width = some w → w < 2 ^ 31) (hm : n + sign.length < 2 ^ 31)
     (hn : n = mag.length) :
     formatSignAndAlign spec mag n sign dflt =
       some (pyPad (spec.fill.getD 32) (alignChar (spec.align.getD dflt)) (spec.width.getD 0) sign mag) := by
@@ -616,6 +621,1189 @@ theorem parseType_eq (t : List Nat) (ty : Option Nat) (r : List Nat) (h : pyOpt 
 theorem typeOfChar_isSome (c : Nat) (h : isType c = true) : ∃ ft, typeOfChar c = some ft ∧ ft ≠ .number true := by
   rcases isType_cases c h with h | h | h | h | h | h | h | h | h | h | h | h | h | h | h <;> subst h <;>
     exact ⟨_, rfl, by simp⟩
+
+
+/-! ### the whole parser -/
+
+/-- the Rust `FormatSpec` that a parsed reference spec denotes (zero flag folded into fill/align,
+    as CPython does for numbers) -/
+def normOf (p : PySpec) : FormatSpec :=
+  { conversion := none
+    fill := match p.fill with
+      | some f => some f
+      | none => if p.zero then some 48 else none
+    align := if p.zero ∧ p.fill.isNone then some ((p.align.bind Align.fromChar).getD .afterSign)
+             else p.align.bind Align.fromChar
+    sign := p.sign.bind signOfChar
+    alt := p.alt
+    width := p.width
+    grouping := p.grouping.bind groupingOfChar
+    precision := p.precision
+    ftype := p.type.bind typeOfChar }
+
+/-- the spec text starts with `!s`, `!r`, `!a` or `!b` -/
+def hasConvPrefix : List Nat → Bool
+  | 33 :: c :: _ => (Conv.fromChar c).isSome
+  | _ => false
+
+theorem parseConversion_of_noPrefix (s : List Nat) (h : hasConvPrefix s = false) :
+    parseConversion s = (none, s) := by
+  unfold parseConversion
+  split
+  · rename_i c rest
+    simp only [hasConvPrefix] at h
+    cases hc : Conv.fromChar c with
+    | none => rfl
+    | some k => simp [hc] at h
+  · rfl
+
+theorem pyFlag_false {c : Nat} {t r : List Nat} (h : pyFlag c t = (false, r)) : r = t := by
+  cases t with
+  | nil => simp [pyFlag] at h; exact h
+  | cons d t =>
+    simp only [pyFlag] at h
+    split at h
+    · simp at h
+    · simp at h; exact h.symm
+
+theorem parse_spec_complete (s : List Nat) (p : PySpec) (h : pyParseSpec s = some p)
+    (hz : p.z = false) (hc : hasConvPrefix s = false)
+    (hw : ∀ w, p.width = some w → w ≤ usizeMax) (hp : ∀ n, p.precision = some n → n ≤ i32Max) :
+    parseSpec s = .ok (normOf p) := by
+  unfold pyParseSpec at h
+  rcases hfa : pyFillAlign s with ⟨fill, align, t1⟩
+  rcases hs : pyOpt isSign t1 with ⟨sign, t2⟩
+  rcases hzf : pyFlag 122 t2 with ⟨z, t3⟩
+  rcases ha : pyFlag 35 t3 with ⟨alt, t4⟩
+  rcases h0 : pyFlag 48 t4 with ⟨zero, t5⟩
+  rcases hn : pyNumber t5 with ⟨width, t6⟩
+  rcases hg : pyOpt isGrouping t6 with ⟨grouping, t7⟩
+  simp only [hfa, hs, hzf, ha, h0, hn, hg] at h
+  cases hpr : pyPrecision t7 with
+  | none => simp [hpr] at h
+  | some pr =>
+    rcases pr with ⟨precision, t8⟩
+    rcases ht : pyOpt isType t8 with ⟨type, t9⟩
+    simp only [hpr, ht] at h
+    split at h
+    · rename_i hemp
+      simp only [Option.some.injEq] at h
+      subst h
+      simp only at hz hw hp
+      subst hz
+      have := pyFlag_false hzf
+      subst this
+      have ht9 : t9 = [] := by simpa using hemp
+      subst ht9
+      have hN : t8.head? ≠ some 78 := by
+        intro h78
+        cases t8 with
+        | nil => simp at h78
+        | cons c r =>
+          simp at h78; subst h78
+          simp [pyOpt, isType] at ht
+      have hnum : parseNumber t5 = .ok (width, t6) := by
+        rw [parseNumber_eq t5 width t6 hn]
+        cases width with
+        | none => rfl
+        | some v => simp [hw v rfl]
+      have hprec : parsePrecision t7 = .ok (precision, t8) := by
+        rw [parsePrecision_eq t7 precision t8 hpr]
+        cases precision with
+        | none => rfl
+        | some n =>
+          have h1 := hp n rfl
+          have h2 : n ≤ usizeMax := by unfold usizeMax; unfold i32Max at h1; omega
+          have h3 : ¬ n > i32Max := by omega
+          simp [h2, h3]
+      unfold parseSpec
+      simp only [parseConversion_of_noPrefix s hc, parseFillAndAlign_eq s fill align t1 hfa,
+        parseSign_eq t1 sign t3 hs, parseAlternateForm_eq, ha, parseZero_eq, h0,
+        hnum, parseGrouping_eq t6 grouping t7 hg, hprec, parseType_eq t8 type [] ht hN]
+      simp only [List.isEmpty_nil, Bool.not_true, Bool.false_eq_true, if_false, normOf]
+      cases fill <;> cases zero <;> simp
+    · simp at h
+
+
+theorem pyFlag_ne {c : Nat} {t : List Nat} (h : t.head? ≠ some c) : pyFlag c t = (false, t) := by
+  cases t with
+  | nil => rfl
+  | cons d t =>
+    have : d ≠ c := by simpa using h
+    simp [pyFlag, this]
+
+theorem pyOpt_not {cls : Nat → Bool} {c : Nat} {t : List Nat} (h : cls c = false) :
+    pyOpt cls (c :: t) = (none, c :: t) := by simp [pyOpt, h]
+
+/-- a `z` in flag position makes the Rust parser fail -/
+theorem parseSpec_z (s : List Nat) (hc : hasConvPrefix s = false) (fill align : Option Nat) (t1 : List Nat)
+    (hfa : pyFillAlign s = (fill, align, t1)) (sign : Option Nat) (r2 : List Nat)
+    (hs : pyOpt isSign t1 = (sign, 122 :: r2)) :
+    parseSpec s = .error .invalidFormatSpecifier := by
+  have h1 : pyFlag 35 (122 :: r2) = (false, 122 :: r2) := pyFlag_ne (by simp)
+  have h2 : pyFlag 48 (122 :: r2) = (false, 122 :: r2) := pyFlag_ne (by simp)
+  have h3 : pyNumber (122 :: r2) = (none, 122 :: r2) := by simp [pyNumber, Spec.isDigit]
+  have h4 : pyOpt isGrouping (122 :: r2) = (none, 122 :: r2) := pyOpt_not (by simp [isGrouping])
+  have h5 : parsePrecision (122 :: r2) = .ok (none, 122 :: r2) := parsePrecision_other _ (by simp)
+  have h6 : parseType (122 :: r2) = (none, 122 :: r2) := by
+    rw [parseType_eq (122 :: r2) none (122 :: r2) (pyOpt_not (by simp [isType])) (by simp)]; rfl
+  have hnum : parseNumber (122 :: r2) = .ok (none, 122 :: r2) := by
+    rw [parseNumber_eq _ none _ h3]
+  unfold parseSpec
+  simp only [parseConversion_of_noPrefix s hc, parseFillAndAlign_eq s fill align t1 hfa,
+    parseSign_eq t1 sign _ hs, parseAlternateForm_eq, h1, parseZero_eq, h2,
+    hnum, parseGrouping_eq _ none _ h4, h5, h6]
+  simp
+
+theorem parse_spec_sound (s : List Nat) (r : FormatSpec) (h : parseSpec s = .ok r)
+    (hc : hasConvPrefix s = false) (hN : r.ftype ≠ some (.number true)) :
+    ∃ p, pyParseSpec s = some p ∧ p.z = false ∧ normOf p = r ∧
+      (∀ w, p.width = some w → w ≤ usizeMax) ∧ (∀ n, p.precision = some n → n ≤ i32Max) := by
+  rcases hfa : pyFillAlign s with ⟨fill, align, t1⟩
+  rcases hs : pyOpt isSign t1 with ⟨sign, t2⟩
+  by_cases hz : t2.head? = some 122
+  · obtain ⟨r2, rfl⟩ : ∃ r2, t2 = 122 :: r2 := by
+      cases t2 with
+      | nil => simp at hz
+      | cons c t => simp at hz; exact ⟨t, by rw [hz]⟩
+    rw [parseSpec_z s hc fill align t1 hfa sign r2 hs] at h
+    cases h
+  have hzf : pyFlag 122 t2 = (false, t2) := pyFlag_ne hz
+  rcases ha : pyFlag 35 t2 with ⟨alt, t4⟩
+  rcases h0 : pyFlag 48 t4 with ⟨zero, t5⟩
+  rcases hn : pyNumber t5 with ⟨width, t6⟩
+  rcases hg : pyOpt isGrouping t6 with ⟨grouping, t7⟩
+  unfold parseSpec at h
+  simp only [parseConversion_of_noPrefix s hc, parseFillAndAlign_eq s fill align t1 hfa,
+    parseSign_eq t1 sign t2 hs, parseAlternateForm_eq, ha, parseZero_eq, h0] at h
+  have hnum := parseNumber_eq t5 width t6 hn
+  have hwb : ∀ w, width = some w → w ≤ usizeMax := by
+    intro w hw; subst hw
+    simp only at hnum
+    by_cases hb : w ≤ usizeMax
+    · exact hb
+    · simp [hnum, hb] at h
+  have hnum' : parseNumber t5 = .ok (width, t6) := by
+    rw [hnum]
+    cases width with
+    | none => rfl
+    | some v => simp [hwb v rfl]
+  simp only [hnum', parseGrouping_eq t6 grouping t7 hg] at h
+  cases hpr : pyPrecision t7 with
+  | none =>
+    obtain ⟨r', rfl, hpp⟩ := parsePrecision_of_none t7 hpr
+    have h6 : parseType (46 :: r') = (none, 46 :: r') := by
+      rw [parseType_eq (46 :: r') none (46 :: r') (pyOpt_not (by simp [isType])) (by simp)]; rfl
+    simp [hpp, h6] at h
+  | some pr =>
+    rcases pr with ⟨precision, t8⟩
+    have hprec := parsePrecision_eq t7 precision t8 hpr
+    have hpb : ∀ n, precision = some n → n ≤ i32Max := by
+      intro n hn'; subst hn'
+      simp only at hprec
+      by_cases hb : n ≤ usizeMax
+      · by_cases hb2 : n > i32Max
+        · simp [hprec, hb, hb2] at h
+        · omega
+      · simp [hprec, hb] at h
+    have hprec' : parsePrecision t7 = .ok (precision, t8) := by
+      rw [hprec]
+      cases precision with
+      | none => rfl
+      | some n =>
+        have h1 := hpb n rfl
+        have h2 : n ≤ usizeMax := by unfold usizeMax; unfold i32Max at h1; omega
+        have h3 : ¬ n > i32Max := by omega
+        simp [h2, h3]
+    simp only [hprec'] at h
+    rcases ht : pyOpt isType t8 with ⟨type, t9⟩
+    by_cases h78 : t8.head? = some 78
+    · obtain ⟨r8, rfl⟩ : ∃ r8, t8 = 78 :: r8 := by
+        cases t8 with
+        | nil => simp at h78
+        | cons c t => simp at h78; exact ⟨t, by rw [h78]⟩
+      have : parseType (78 :: r8) = (some (.number true), r8) := rfl
+      simp only [this] at h
+      split at h
+      · cases h
+      · simp only [Except.ok.injEq] at h
+        subst h
+        simp at hN
+    · simp only [parseType_eq t8 type t9 ht h78] at h
+      split at h
+      · cases h
+      · rename_i hemp
+        have ht9 : t9 = [] := by simpa using hemp
+        subst ht9
+        simp only [Except.ok.injEq] at h
+        refine ⟨{ fill, align, sign, z := false, alt, zero, width, grouping, precision, type }, ?_, rfl, ?_, hwb, hpb⟩
+        · unfold pyParseSpec
+          simp only [hfa, hs, hzf, ha, h0, hn, hg, hpr, ht]
+          simp
+        · rw [← h]
+          simp only [normOf]
+          cases fill <;> cases zero <;> simp
+
+
+/-- what the grammar guarantees about a parsed spec -/
+structure WfSpec (p : PySpec) : Prop where
+  align : ∀ a, p.align = some a → isAlign a = true
+  sign : ∀ c, p.sign = some c → isSign c = true
+  grouping : ∀ g, p.grouping = some g → isGrouping g = true
+  type : ∀ t, p.type = some t → isType t = true
+  fill : p.fill.isSome = true → p.align.isSome = true
+
+theorem pyOpt_wf {cls : Nat → Bool} {t r : List Nat} {o : Option Nat} (h : pyOpt cls t = (o, r)) :
+    ∀ c, o = some c → cls c = true := by
+  intro c hc; subst hc
+  cases t with
+  | nil => simp [pyOpt] at h
+  | cons d t =>
+    simp only [pyOpt] at h
+    split at h
+    · rename_i hd; simp at h; rw [← h.1]; exact hd
+    · simp at h
+
+theorem pyFillAlign_wf {s t : List Nat} {f a : Option Nat} (h : pyFillAlign s = (f, a, t)) :
+    (∀ c, a = some c → isAlign c = true) ∧ (f.isSome = true → a.isSome = true) := by
+  match s, h with
+  | [], h => simp [pyFillAlign] at h; obtain ⟨rfl, rfl, rfl⟩ := h; simp
+  | [x], h =>
+    simp only [pyFillAlign] at h
+    split at h
+    · rename_i hx; simp at h; obtain ⟨rfl, rfl, rfl⟩ := h; simp [hx]
+    · simp at h; obtain ⟨rfl, rfl, rfl⟩ := h; simp
+  | x :: y :: rest, h =>
+    simp only [pyFillAlign] at h
+    split at h
+    · rename_i hy; simp at h; obtain ⟨rfl, rfl, rfl⟩ := h; simp [hy]
+    · split at h
+      · rename_i hx; simp at h; obtain ⟨rfl, rfl, rfl⟩ := h; simp [hx]
+      · simp at h; obtain ⟨rfl, rfl, rfl⟩ := h; simp
+
+theorem pyParse_wf (s : List Nat) (p : PySpec) (h : pyParseSpec s = some p) : WfSpec p := by
+  unfold pyParseSpec at h
+  rcases hfa : pyFillAlign s with ⟨fill, align, t1⟩
+  rcases hs : pyOpt isSign t1 with ⟨sign, t2⟩
+  rcases hzf : pyFlag 122 t2 with ⟨z, t3⟩
+  rcases ha : pyFlag 35 t3 with ⟨alt, t4⟩
+  rcases h0 : pyFlag 48 t4 with ⟨zero, t5⟩
+  rcases hn : pyNumber t5 with ⟨width, t6⟩
+  rcases hg : pyOpt isGrouping t6 with ⟨grouping, t7⟩
+  simp only [hfa, hs, hzf, ha, h0, hn, hg] at h
+  cases hpr : pyPrecision t7 with
+  | none => simp [hpr] at h
+  | some pr =>
+    rcases pr with ⟨precision, t8⟩
+    rcases ht : pyOpt isType t8 with ⟨type, t9⟩
+    simp only [hpr, ht] at h
+    split at h
+    · simp only [Option.some.injEq] at h
+      subst h
+      have := pyFillAlign_wf hfa
+      exact ⟨this.1, pyOpt_wf hs, pyOpt_wf hg, pyOpt_wf ht, this.2⟩
+    · simp at h
+
+/-- a `z` flag makes the Rust parser fail -/
+theorem parseSpec_of_z (s : List Nat) (p : PySpec) (h : pyParseSpec s = some p) (hz : p.z = true)
+    (hc : hasConvPrefix s = false) : parseSpec s = .error .invalidFormatSpecifier := by
+  unfold pyParseSpec at h
+  rcases hfa : pyFillAlign s with ⟨fill, align, t1⟩
+  rcases hs : pyOpt isSign t1 with ⟨sign, t2⟩
+  rcases hzf : pyFlag 122 t2 with ⟨z, t3⟩
+  rcases ha : pyFlag 35 t3 with ⟨alt, t4⟩
+  rcases h0 : pyFlag 48 t4 with ⟨zero, t5⟩
+  rcases hn : pyNumber t5 with ⟨width, t6⟩
+  rcases hg : pyOpt isGrouping t6 with ⟨grouping, t7⟩
+  simp only [hfa, hs, hzf, ha, h0, hn, hg] at h
+  cases hpr : pyPrecision t7 with
+  | none => simp [hpr] at h
+  | some pr =>
+    rcases pr with ⟨precision, t8⟩
+    rcases ht : pyOpt isType t8 with ⟨type, t9⟩
+    simp only [hpr, ht] at h
+    split at h
+    · simp only [Option.some.injEq] at h
+      subst h
+      simp only at hz
+      subst hz
+      have : t2 = 122 :: t3 := by
+        cases t2 with
+        | nil => simp [pyFlag] at hzf
+        | cons d t =>
+          simp only [pyFlag] at hzf
+          split at hzf
+          · rename_i hd; simp at hzf; rw [hd, hzf]
+          · simp at hzf
+      subst this
+      exact parseSpec_z s hc fill align t1 hfa sign t3 hs
+    · simp at h
+
+
+/-- observable outcome: `none` = panic, `some none` = rejected, `some (some t)` = text -/
+def Res.view : Res (List Nat) → Option (Option (List Nat))
+  | .panic => none
+  | .err _ => some none
+  | .ok t => some (some t)
+
+def isAscii (c : Nat) : Bool := c < 128
+
+theorem truncateBytes_ascii (l : List Nat) (n : Nat) (h : (l.take n).all isAscii = true) :
+    truncateBytes l n = some (l.take n) := by
+  induction l generalizing n with
+  | nil => simp [truncateBytes]
+  | cons c cs ih =>
+    cases n with
+    | zero => simp [truncateBytes]
+    | succ n =>
+      simp only [List.take_succ_cons, List.all_cons, Bool.and_eq_true] at h
+      have hc : utf8Len1 c = 1 := by
+        have : c < 128 := by simpa [isAscii] using h.1
+        simp [utf8Len1, this]
+      simp only [truncateBytes, hc, List.take_succ_cons]
+      simp [ih n h.2]
+
+theorem pyPad_nopad (f a w : Nat) (lead body : List Nat) (h : w ≤ lead.length + body.length) :
+    pyPad f a w lead body = lead ++ body := by
+  unfold pyPad
+  have : w - (lead.length + body.length) = 0 := by omega
+  simp only [this]
+  split
+  · simp
+  · split
+    · simp
+    · split <;> simp
+
+theorem pyPad_length (f a w : Nat) (lead body : List Nat) :
+    (pyPad f a w lead body).length = max w (lead.length + body.length) := by
+  unfold pyPad
+  simp only []
+  split
+  · simp; omega
+  · split
+    · simp; omega
+    · split
+      · simp; omega
+      · simp; omega
+
+theorem pyPad_all (f a w : Nat) (body : List Nat) (P : Nat → Bool) (hb : body.all P = true)
+    (hf : body.length < w → P f = true) : (pyPad f a w [] body).all P = true := by
+  unfold pyPad
+  simp only [List.length_nil, Nat.zero_add, List.nil_append]
+  by_cases hw : body.length < w
+  · have := hf hw
+    split
+    · simp [hb, this]
+    · split
+      · simp [hb, this]
+      · split <;> simp [hb, this]
+  · have : w - body.length = 0 := by omega
+    simp [this, hb]
+
+
+/-! ### `format_string` -/
+
+def boundsOk (p : PySpec) : Bool := p.width.getD 0 < 2 ^ 31 && p.precision.getD 0 < 2 ^ 31
+
+/-- none of the listed `str` deviations applies (sign / `#` / `=` accepted, `0` flag pads on the
+    left, precision applied to the padded text and counted in bytes) -/
+def strShapeFree (p : PySpec) (s : List Nat) : Bool :=
+  p.sign.isNone && !p.alt && p.align != some 61 &&
+  !(p.zero && p.fill.isNone && p.align.isNone && s.length < p.width.getD 0) &&
+  (match p.precision with
+   | none => true
+   | some n => p.width.getD 0 ≤ n && (s.take n).all isAscii &&
+      (!(s.length < p.width.getD 0) || isAscii (effFill p)))
+
+def InDomainStr (p : PySpec) (s : List Nat) : Bool :=
+  boundsOk p && s.length < 2 ^ 30 &&
+  (p.grouping.isSome || (p.type != none && p.type != some 115) || strShapeFree p s)
+
+theorem groupingOfChar_some (g : Nat) (h : isGrouping g = true) : ∃ x, groupingOfChar g = some x := by
+  simp only [isGrouping, Bool.or_eq_true, decide_eq_true_eq] at h
+  rcases h with h | h <;> subst h <;> exact ⟨_, rfl⟩
+
+theorem formatString_grouping (r : FormatSpec) (s : List Nat) (g : Grouping) (h : r.grouping = some g) :
+    ∃ e, formatString r s = .err e := by
+  unfold formatString validateFormat
+  rw [h]
+  cases g <;> cases hft : r.ftype with
+  | none => simp
+  | some ft => cases ft <;> simp
+
+theorem validateFormat_nogroup (r : FormatSpec) (d : FType) (h : r.grouping = none) :
+    validateFormat r d = .ok () := by
+  unfold validateFormat
+  rw [h]
+
+theorem normOf_fill (p : PySpec) : (normOf p).fill.getD 32 = effFill p := by
+  unfold normOf effFill
+  cases p.fill <;> cases p.zero <;> simp
+
+theorem alignChar_fromChar (c : Nat) (h : isAlign c = true) :
+    ∃ a, Align.fromChar c = some a ∧ alignChar a = c := by
+  simp only [isAlign, Bool.or_eq_true, decide_eq_true_eq] at h
+  rcases h with ((h | h) | h) | h <;> subst h <;> exact ⟨_, rfl, rfl⟩
+
+theorem formatString_eq (p : PySpec) (s : List Nat) (wf : WfSpec p) (hz : p.z = false)
+    (hd : InDomainStr p s = true) :
+    (formatString (normOf p) s).view = some (pyFormatStr p s) := by
+  simp only [InDomainStr, boundsOk, Bool.and_eq_true, Bool.or_eq_true, decide_eq_true_eq] at hd
+  obtain ⟨⟨⟨hbw, hbp⟩, hlen⟩, hd⟩ := hd
+  cases hg : p.grouping with
+  | some g =>
+    obtain ⟨x, hx⟩ := groupingOfChar_some g (wf.grouping g hg)
+    obtain ⟨e, he⟩ := formatString_grouping (normOf p) s x (by simp [normOf, hg, hx])
+    rw [he]
+    simp [Res.view, pyFormatStr, hg]
+  | none =>
+    have hng : (normOf p).grouping = none := by simp [normOf, hg]
+    by_cases hty : p.type = none ∨ p.type = some 115
+    · -- a string presentation type
+      have hft : (normOf p).ftype = none ∨ (normOf p).ftype = some .string := by
+        rcases hty with h | h
+        · left; simp [normOf, h]
+        · right; simp [normOf, h, typeOfChar]
+      have hsf : strShapeFree p s = true := by
+        rcases hd with (h | h) | h
+        · simp [hg] at h
+        · rcases hty with h' | h' <;> simp [h'] at h
+        · exact h
+      simp only [strShapeFree, Bool.and_eq_true, Bool.not_eq_true', bne_iff_ne, ne_eq,
+        Option.isNone_iff_eq_none] at hsf
+      obtain ⟨⟨⟨⟨hsign, halt⟩, heq⟩, hzero⟩, hprec⟩ := hsf
+      have hw : ∀ w, (normOf p).width = some w → w < 2 ^ 31 := by
+        intro w hw'; simp only [normOf] at hw'; rw [hw'] at hbw; simpa using hbw
+      have hfsa := formatSignAndAlign_eq (normOf p) s [] s.length .left hw (by simp; omega) rfl
+      rw [normOf_fill] at hfsa
+      -- Rust's alignment vs Python's
+      have halign : pyPad (effFill p) (alignChar ((normOf p).align.getD .left)) ((normOf p).width.getD 0) [] s
+          = pyPad (effFill p) (p.align.getD 60) (p.width.getD 0) [] s := by
+        have hwd : (normOf p).width = p.width := rfl
+        rw [hwd]
+        by_cases hzf : p.zero = true ∧ p.fill.isNone = true
+        · cases hal : p.align with
+          | some a =>
+            obtain ⟨al, h1, h2⟩ := alignChar_fromChar a (wf.align a hal)
+            simp [normOf, hzf, hal, h1, h2]
+          | none =>
+            have hnopad : ¬ s.length < p.width.getD 0 := by
+              intro hlt
+              simp [hzf.1, hzf.2, hal, hlt] at hzero
+            rw [pyPad_nopad _ _ _ _ _ (by simp; omega), pyPad_nopad _ _ _ _ _ (by simp; omega)]
+        · cases hal : p.align with
+          | some a =>
+            obtain ⟨al, h1, h2⟩ := alignChar_fromChar a (wf.align a hal)
+            simp [normOf, hal, h1, h2]
+          | none =>
+            have hzf' : ¬ (p.zero = true ∧ p.fill = none) := by
+              simpa [Option.isNone_iff_eq_none] using hzf
+            simp [normOf, hzf', hal, alignChar]
+      rw [halign] at hfsa
+      have hpy : pyFormatStr p s = some (pyPad (effFill p) (p.align.getD 60) (p.width.getD 0) []
+          (match p.precision with | some n => s.take n | none => s)) := by
+        unfold pyFormatStr
+        have h1 : ¬ (p.z = true ∨ p.sign.isSome = true ∨ p.alt = true ∨ p.grouping.isSome = true ∨ p.align = some 61) := by
+          simp [hz, hsign, halt, hg, heq]
+        have h2 : ¬ (p.type ≠ none ∧ p.type ≠ some 115) := by
+          rcases hty with h | h <;> simp [h]
+        rw [if_neg h1, if_neg h2]
+        rfl
+      rw [hpy]
+      unfold formatString
+      rw [validateFormat_nogroup _ _ hng]
+      have hprn : (normOf p).precision = p.precision := rfl
+      rcases hft with hft | hft <;> rw [hft] <;> simp only [hfsa, Res.ofOption, Res.bind, hprn]
+      all_goals
+        cases hpr : p.precision with
+        | none => simp [Res.view]
+        | some n =>
+          simp only [hpr, Bool.and_eq_true, decide_eq_true_eq, Bool.or_eq_true, Bool.not_eq_true',
+            decide_eq_false_iff_not] at hprec
+          obtain ⟨⟨hwn, hasc⟩, hfill⟩ := hprec
+          dsimp only
+          by_cases hlw : s.length < p.width.getD 0
+          · -- padded, no longer than the precision: nothing is cut
+            have hf : isAscii (effFill p) = true := by
+              rcases hfill with h | h
+              · exact absurd hlw h
+              · exact h
+            have htk : s.take n = s := List.take_of_length_le (by omega)
+            rw [htk] at hasc ⊢
+            have hall := pyPad_all (effFill p) (p.align.getD 60) (p.width.getD 0) s isAscii hasc (fun _ => hf)
+            have hlen' := pyPad_length (effFill p) (p.align.getD 60) (p.width.getD 0) [] s
+            have htk2 : (pyPad (effFill p) (p.align.getD 60) (p.width.getD 0) [] s).take n
+                = pyPad (effFill p) (p.align.getD 60) (p.width.getD 0) [] s :=
+              List.take_of_length_le (by rw [hlen']; simp; omega)
+            rw [truncateBytes_ascii _ n (by rw [htk2]; exact hall), htk2]
+            simp [Res.view]
+          · rw [pyPad_nopad _ _ _ _ _ (by simp; omega)]
+            rw [pyPad_nopad _ _ _ _ _ (by simp; omega)]
+            simp only [List.nil_append]
+            rw [truncateBytes_ascii _ n hasc]
+            simp [Res.view]
+    · -- any other presentation type is rejected by both
+      have hty' : p.type ≠ none ∧ p.type ≠ some 115 := by
+        constructor <;> intro h <;> exact hty (by simp [h])
+      obtain ⟨t, ht⟩ : ∃ t, p.type = some t := by
+        cases h : p.type with
+        | none => exact absurd h hty'.1
+        | some t => exact ⟨t, rfl⟩
+      have hpy : pyFormatStr p s = none := by
+        unfold pyFormatStr
+        split <;> rfl
+      rw [hpy]
+      unfold formatString
+      rw [validateFormat_nogroup _ _ hng]
+      have : t ≠ 115 := by intro h; subst h; exact hty'.2 ht
+      rcases isType_cases t (wf.type t ht) with h | h | h | h | h | h | h | h | h | h | h | h | h | h | h <;>
+        subst h <;> first | omega | simp [normOf, ht, typeOfChar, Res.view]
+
+
+/-! ### integers -/
+
+theorem digitChar_eq (d : Nat) (u : Bool) : PV.C18.digitChar d u = Spec.digitChar d u := rfl
+
+theorem radixGo_eq (radix : Nat) (u : Bool) (fuel n : Nat) (acc : List Nat) :
+    PV.C18.radixGo radix u fuel n acc = Spec.radixGo radix u fuel n acc := by
+  induction fuel generalizing n acc with
+  | zero => rfl
+  | succ f ih => simp only [PV.C18.radixGo, Spec.radixGo, ih, digitChar_eq]
+
+theorem toStrRadix_eq (n radix : Nat) (u : Bool) : toStrRadix n radix u = toRadix n radix u := by
+  unfold toStrRadix toRadix; exact radixGo_eq _ _ _ _ _
+
+/-- a character of a rendered integer: ASCII and not `.` -/
+def digitLike (c : Nat) : Bool := c < 128 && c != 46
+
+theorem digitChar_like (d : Nat) (u : Bool) (h : d < 16) : digitLike (Spec.digitChar d u) = true := by
+  unfold Spec.digitChar digitLike
+  split
+  · simp; omega
+  · split <;> (simp; omega)
+
+theorem radixGo_like (radix : Nat) (hr : radix ≤ 16) (hr0 : 0 < radix) (u : Bool) (fuel n : Nat) (acc : List Nat)
+    (ha : acc.all digitLike = true) : (Spec.radixGo radix u fuel n acc).all digitLike = true := by
+  induction fuel generalizing n acc with
+  | zero => exact ha
+  | succ f ih =>
+    simp only [Spec.radixGo]
+    by_cases hn : n < radix
+    · have hn16 : n < 16 := by omega
+      simp [hn, ha, digitChar_like n u hn16]
+    · have hm := Nat.mod_lt n hr0
+      have hm16 : n % radix < 16 := by omega
+      simp only [hn, if_false]
+      exact ih _ _ (by simp [ha, digitChar_like (n % radix) u hm16])
+
+theorem radixGo_length (radix : Nat) (u : Bool) (fuel n : Nat) (acc : List Nat) :
+    (Spec.radixGo radix u fuel n acc).length ≤ fuel + acc.length := by
+  induction fuel generalizing n acc with
+  | zero => simp [Spec.radixGo]
+  | succ f ih =>
+    simp only [Spec.radixGo]
+    split
+    · simp; omega
+    · have := ih (n / radix) (Spec.digitChar (n % radix) u :: acc)
+      simp at this; omega
+
+theorem radixGo_ne_nil (radix : Nat) (u : Bool) (fuel n : Nat) (acc : List Nat)
+    (h : acc ≠ [] ∨ 1 ≤ fuel) : Spec.radixGo radix u fuel n acc ≠ [] := by
+  induction fuel generalizing n acc with
+  | zero =>
+    rcases h with h | h
+    · exact h
+    · omega
+  | succ f ih =>
+    simp only [Spec.radixGo]
+    split
+    · simp
+    · exact ih _ _ (Or.inl (by simp))
+
+theorem toRadix_like (n radix : Nat) (hr : radix ≤ 16) (hr0 : 0 < radix) (u : Bool) :
+    (toRadix n radix u).all digitLike = true :=
+  radixGo_like radix hr hr0 u _ _ [] rfl
+
+theorem toRadix_length (n radix : Nat) (u : Bool) : (toRadix n radix u).length ≤ Nat.log2 n + 1 := by
+  have := radixGo_length radix u (Nat.log2 n + 1) n []
+  simpa [toRadix] using this
+
+theorem toRadix_ne_nil (n radix : Nat) (u : Bool) : toRadix n radix u ≠ [] :=
+  radixGo_ne_nil radix u _ n [] (Or.inr (by omega))
+
+theorem splitDot_like (l : List Nat) (h : l.all digitLike = true) : splitDot l = (l, none) := by
+  induction l with
+  | nil => rfl
+  | cons c cs ih =>
+    simp only [List.all_cons, Bool.and_eq_true] at h
+    have hc : c ≠ 46 := by
+      have := h.1; simp [digitLike] at this; exact this.2
+    by_cases h46 : c = 46
+    · exact absurd h46 hc
+    · have : splitDot (c :: cs) = (let (a, b) := splitDot cs; (c :: a, b)) := by
+        conv => lhs; unfold splitDot
+        split
+        · rename_i heq; simp at heq
+        · rename_i heq; simp at heq; exact absurd heq.1 h46
+        · rename_i c' r' _ heq; simp at heq; obtain ⟨rfl, rfl⟩ := heq; rfl
+      rw [this, ih h.2]
+
+theorem utf8Len_like (l : List Nat) (h : l.all (fun c => decide (c < 128)) = true) : utf8Len l = l.length := by
+  induction l with
+  | nil => rfl
+  | cons c cs ih =>
+    simp only [List.all_cons, Bool.and_eq_true, decide_eq_true_eq] at h
+    simp [utf8Len, utf8Len1, h.1, ih h.2]; omega
+
+
+def sepChar : Grouping → Nat
+  | .comma => 44 | .underscore => 95
+
+theorem pyGroupPad_small3 (sep w : Nat) (ds : List Nat) (h : w ≤ ds.length) :
+    pyGroupPad 3 sep w ds = groupRight 3 sep ds := by
+  unfold pyGroupPad
+  rw [padSearch_spec 3 (by omega) _ isCnt3 sep w 0 w ds (by omega) (by omega) (by intro j hj; omega)]
+  simp
+
+theorem pyGroupPad_small4 (sep w : Nat) (ds : List Nat) (h : w ≤ ds.length) :
+    pyGroupPad 4 sep w ds = groupRight 4 sep ds := by
+  unfold pyGroupPad
+  rw [padSearch_spec 4 (by omega) _ isCnt4 sep w 0 w ds (by omega) (by omega) (by intro j hj; omega)]
+  simp
+
+/-- the grouped magnitude `add_magnitude_separators` produces for a digit string -/
+def rsBody (r : FormatSpec) (k : Nat) (raw pfx : List Nat) : List Nat :=
+  match r.grouping with
+  | none => raw
+  | some g => pyGroupPad k (sepChar g) (r.width.getD raw.length - pfx.length) raw
+
+/-- the integer part `Spec.assemble` pads -/
+def pyIntPart (p : PySpec) (k : Nat) (lead intDigits remainder : List Nat) : List Nat :=
+  match p.grouping with
+  | none => intDigits
+  | some sep =>
+    if intDigits.isEmpty then []
+    else if zeroEq p then pyGroupPad k sep (p.width.getD 0 - lead.length - remainder.length) intDigits
+    else groupRight k sep intDigits
+
+theorem assemble_eq (p : PySpec) (lead ds rem : List Nat) (k : Nat) :
+    assemble p lead ds rem k =
+      pyPad (effFill p) (effAlignNum p) (p.width.getD 0) lead (pyIntPart p k lead ds rem ++ rem) := by
+  unfold assemble pyIntPart
+  cases p.grouping <;> rfl
+
+theorem addMagnitudeSeparators_int (r : FormatSpec) (raw pfx : List Nat) (k : Nat) (hk : k = 3 ∨ k = 4)
+    (hint : getSeparatorInterval r = some k) (hraw : raw.all digitLike = true) (hne : raw ≠ [])
+    (hlen : raw.length < 2 ^ 30) (hpl : pfx.length < 2 ^ 30) (hw : ∀ w, r.width = some w → w < 2 ^ 31) :
+    addMagnitudeSeparators r raw pfx = some (rsBody r k raw pfx) := by
+  unfold addMagnitudeSeparators rsBody
+  cases hg : r.grouping with
+  | none => rfl
+  | some g =>
+    simp only [hint]
+    have hwv : r.width.getD raw.length < 2 ^ 31 := by
+      cases hwd : r.width with
+      | none => simp; omega
+      | some w => simpa using hw w hwd
+    rw [wrapI32_small _ hwv, wrapI32_small pfx.length (by omega), wrapI32_small raw.length (by omega)]
+    rw [chkI32_ok _ (by omega) (by omega)]
+    simp only [addSepForChar, splitDot_like raw hraw, Int.sub_self, Int.sub_zero]
+    have h3 : ((3 : Nat) : Int) = 3 := rfl
+    have h4 : ((4 : Nat) : Int) = 4 := rfl
+    cases g <;> simp only [sepChar] <;> rcases hk with rfl | rfl
+    · rw [h3, separateInteger_spec3 44 (r.width.getD raw.length - pfx.length) raw hne _ (by omega)]
+    · rw [h4, separateInteger_spec4 44 (r.width.getD raw.length - pfx.length) raw hne _ (by omega)]
+    · rw [h3, separateInteger_spec3 95 (r.width.getD raw.length - pfx.length) raw hne _ (by omega)]
+    · rw [h4, separateInteger_spec4 95 (r.width.getD raw.length - pfx.length) raw hne _ (by omega)]
+
+
+theorem groupRev_all (k sep : Nat) (P : Nat → Bool) (hs : P sep = true) (i : Nat) (l : List Nat)
+    (h : l.all P = true) : (groupRev k sep i l).all P = true := by
+  induction l generalizing i with
+  | nil => rfl
+  | cons d r ih =>
+    simp only [List.all_cons, Bool.and_eq_true] at h
+    simp only [groupRev]
+    split <;> simp [hs, h.1, ih _ h.2]
+
+theorem groupRight_all (k sep : Nat) (P : Nat → Bool) (hs : P sep = true) (l : List Nat)
+    (h : l.all P = true) : (groupRight k sep l).all P = true := by
+  unfold groupRight
+  rw [List.all_reverse]
+  exact groupRev_all k sep P hs 0 _ (by rw [List.all_reverse]; exact h)
+
+theorem padSearch_all (k sep w : Nat) (P : Nat → Bool) (hs : P sep = true) (h0 : P 48 = true)
+    (fuel : Nat) (l : List Nat) (h : l.all P = true) : (padSearch k sep w fuel l).all P = true := by
+  induction fuel generalizing l with
+  | zero => exact groupRight_all k sep P hs l h
+  | succ f ih =>
+    simp only [padSearch]
+    split
+    · exact groupRight_all k sep P hs l h
+    · exact ih _ (by simp [h0, h])
+
+theorem padSearch_length3 (sep w : Nat) (fuel : Nat) (l : List Nat) :
+    (padSearch 3 sep w fuel l).length ≤ max (w + 1) (l.length + (l.length - 1) / 3) := by
+  induction fuel generalizing l with
+  | zero =>
+    simp only [padSearch]
+    rw [groupRight_length 3 (by omega) _ isCnt3 sep l.length l rfl]; omega
+  | succ f ih =>
+    simp only [padSearch]
+    have hl := groupRight_length 3 (by omega) _ isCnt3 sep l.length l rfl
+    split
+    · rw [hl]; omega
+    · rename_i hlt
+      rw [hl] at hlt
+      have := ih (48 :: l)
+      simp only [List.length_cons] at this
+      omega
+
+theorem padSearch_length4 (sep w : Nat) (fuel : Nat) (l : List Nat) :
+    (padSearch 4 sep w fuel l).length ≤ max (w + 1) (l.length + (l.length - 1) / 4) := by
+  induction fuel generalizing l with
+  | zero =>
+    simp only [padSearch]
+    rw [groupRight_length 4 (by omega) _ isCnt4 sep l.length l rfl]; omega
+  | succ f ih =>
+    simp only [padSearch]
+    have hl := groupRight_length 4 (by omega) _ isCnt4 sep l.length l rfl
+    split
+    · rw [hl]; omega
+    · rename_i hlt
+      rw [hl] at hlt
+      have := ih (48 :: l)
+      simp only [List.length_cons] at this
+      omega
+
+theorem isAscii_of_digitLike (l : List Nat) (h : l.all digitLike = true) : l.all isAscii = true := by
+  induction l with
+  | nil => rfl
+  | cons c cs ih =>
+    simp only [List.all_cons, Bool.and_eq_true] at h ⊢
+    refine ⟨?_, ih h.2⟩
+    have := h.1; simp [digitLike] at this; simp [isAscii, this.1]
+
+
+def boundsOkInt (p : PySpec) (n : Int) : Bool :=
+  p.width.getD 0 < 2 ^ 30 && p.precision.getD 0 < 2 ^ 31 && Nat.log2 n.natAbs < 2 ^ 28
+
+theorem signOfChar_some (c : Nat) (h : isSign c = true) : ∃ x, signOfChar c = some x := by
+  simp only [isSign, Bool.or_eq_true, decide_eq_true_eq] at h
+  rcases h with (h | h) | h <;> subst h <;> exact ⟨_, rfl⟩
+
+theorem sSign_eq (p : PySpec) (wf : WfSpec p) (neg : Bool) :
+    sSign neg (normOf p).sign = signText p neg := by
+  unfold sSign signText
+  cases neg
+  · simp only [Bool.false_eq_true, if_false, normOf]
+    cases hs : p.sign with
+    | none => rfl
+    | some c =>
+      have := wf.sign c hs
+      simp only [isSign, Bool.or_eq_true, decide_eq_true_eq] at this
+      rcases this with (h | h) | h <;> subst h <;> rfl
+  · rfl
+
+theorem normOf_alignNum (p : PySpec) (wf : WfSpec p) :
+    alignChar ((normOf p).align.getD .right) = effAlignNum p := by
+  unfold normOf effAlignNum
+  cases hal : p.align with
+  | some a =>
+    obtain ⟨al, h1, h2⟩ := alignChar_fromChar a (wf.align a hal)
+    by_cases hz : p.zero = true ∧ p.fill.isNone = true <;> simp [hz, h1, h2]
+  | none =>
+    have hf : p.fill = none := by
+      cases hfl : p.fill with
+      | none => rfl
+      | some f => have := wf.fill (by simp [hfl]); simp [hal] at this
+    cases hz : p.zero <;> simp [hf, alignChar]
+
+theorem radix_case (p : PySpec) (n : Int) (wf : WfSpec p) (radix : Nat) (upper : Bool) (pfx : List Nat)
+    (k : Nat) (commaOk sepOk : Bool)
+    (hr : 0 < radix ∧ radix ≤ 16) (hk : k = 3 ∨ k = 4) (hpfx : pfx.length ≤ 2)
+    (hmag : intMagnitude (normOf p) n = (formatIntRadix (normOf p) n.natAbs radix upper).map Sum.inl)
+    (hpre : intPrefix (normOf p) = if p.alt then pfx else [])
+    (hval : validateFormat (normOf p) .decimal =
+      if (p.grouping = some 44 ∧ commaOk = false) ∨ (p.grouping = some 95 ∧ sepOk = false)
+      then .error .unspecifiedFormat else .ok ())
+    (hint : getSeparatorInterval (normOf p) = some k)
+    (hb : boundsOkInt p n = true) (hshape : (p.grouping.isSome && p.width.isSome) = false ∨ zeroEq p = true) :
+    (formatInt (normOf p) n).view = some (
+      if p.precision.isSome then none
+      else if (p.grouping = some 44 ∧ (!commaOk) = true) ∨ (p.grouping = some 95 ∧ (!sepOk) = true) then none
+      else some (assemble p (signText p (n < 0) ++ (if p.alt then pfx else []))
+        (toRadix n.natAbs radix upper) [] k)) := by
+  simp only [boundsOkInt, Bool.and_eq_true, decide_eq_true_eq] at hb
+  obtain ⟨⟨hbw, hbp⟩, hbl⟩ := hb
+  unfold formatInt
+  rw [hval]
+  by_cases hbad : (p.grouping = some 44 ∧ commaOk = false) ∨ (p.grouping = some 95 ∧ sepOk = false)
+  · rw [if_pos hbad]
+    have hbad' : (p.grouping = some 44 ∧ (!commaOk) = true) ∨ (p.grouping = some 95 ∧ (!sepOk) = true) := by
+      simpa using hbad
+    rw [if_pos hbad']
+    simp [Res.view]
+  · rw [if_neg hbad]
+    have hbad' : ¬ ((p.grouping = some 44 ∧ (!commaOk) = true) ∨ (p.grouping = some 95 ∧ (!sepOk) = true)) := by
+      simpa using hbad
+    rw [if_neg hbad']
+    simp only [hmag, formatIntRadix]
+    have hprn : (normOf p).precision = p.precision := rfl
+    rw [hprn]
+    cases hpr : p.precision with
+    | some x => simp [Res.map, Res.bind, Res.view]
+    | none =>
+      simp only [Res.map, Res.bind, Option.isSome_none, Bool.false_eq_true, if_false]
+      rw [toStrRadix_eq, hpre, sSign_eq p wf]
+      generalize hlead : signText p (decide (n < 0)) ++ (if p.alt = true then pfx else []) = lead
+      have hleadlen : lead.length ≤ 3 := by
+        rw [← hlead]; simp only [List.length_append]
+        have : (signText p (decide (n < 0))).length ≤ 1 := by
+          unfold signText; split
+          · simp
+          · split <;> simp
+        split <;> simp <;> omega
+      have hraw := toRadix_like n.natAbs radix hr.2 hr.1 upper
+      have hrawlen := toRadix_length n.natAbs radix upper
+      have hrawne := toRadix_ne_nil n.natAbs radix upper
+      generalize toRadix n.natAbs radix upper = raw at *
+      have hw : ∀ w, (normOf p).width = some w → w < 2 ^ 31 := by
+        intro w hw'; simp only [normOf] at hw'; rw [hw'] at hbw; simp at hbw; omega
+      rw [addMagnitudeSeparators_int (normOf p) raw lead k hk hint hraw hrawne (by omega) (by omega) hw]
+      simp only [Res.ofOption]
+      have hgr : (normOf p).grouping = p.grouping.bind groupingOfChar := rfl
+      have hwd : (normOf p).width = p.width := rfl
+      -- the grouped magnitude on both sides
+      have hbody : rsBody (normOf p) k raw lead = pyIntPart p k lead raw [] := by
+        unfold rsBody pyIntPart
+        rw [hgr, hwd]
+        cases hg : p.grouping with
+        | none => rfl
+        | some g =>
+          have hgg := wf.grouping g hg
+          have hne' : raw.isEmpty = false := by
+            cases raw with
+            | nil => exact absurd rfl hrawne
+            | cons a l => rfl
+          simp only [isGrouping, Bool.or_eq_true, decide_eq_true_eq] at hgg
+          have hsc : ∃ x, groupingOfChar g = some x ∧ sepChar x = g := by
+            rcases hgg with h | h <;> subst h <;> exact ⟨_, rfl, rfl⟩
+          obtain ⟨x, hx1, hx2⟩ := hsc
+          simp only [Option.bind_some, hx1, hx2, hne', Bool.false_eq_true, if_false, List.length_nil,
+            Nat.sub_zero]
+          cases hwdt : p.width with
+          | none =>
+            simp only [Option.getD_none, Nat.zero_sub]
+            have e1 : pyGroupPad k g (raw.length - lead.length) raw = groupRight k g raw := by
+              rcases hk with rfl | rfl
+              · exact pyGroupPad_small3 g _ raw (by omega)
+              · exact pyGroupPad_small4 g _ raw (by omega)
+            have e2 : pyGroupPad k g 0 raw = groupRight k g raw := by
+              rcases hk with rfl | rfl
+              · exact pyGroupPad_small3 g _ raw (by omega)
+              · exact pyGroupPad_small4 g _ raw (by omega)
+            rw [e1, e2]; simp
+          | some w =>
+            have hz : zeroEq p = true := by
+              rcases hshape with h | h
+              · simp [hg, hwdt] at h
+              · exact h
+            simp [hz]
+      rw [hbody, assemble_eq]
+      -- ASCII and short
+      have hmag_ascii : (pyIntPart p k lead raw []).all isAscii = true := by
+        unfold pyIntPart
+        have hra := isAscii_of_digitLike raw hraw
+        cases hg : p.grouping with
+        | none => exact hra
+        | some g =>
+          have hgg := wf.grouping g hg
+          have hsa : isAscii g = true := by
+            simp only [isGrouping, Bool.or_eq_true, decide_eq_true_eq] at hgg
+            rcases hgg with h | h <;> subst h <;> rfl
+          simp only []
+          split
+          · rfl
+          · split
+            · exact padSearch_all k g _ isAscii hsa rfl _ raw hra
+            · exact groupRight_all k g isAscii hsa raw hra
+      have hmag_len : (pyIntPart p k lead raw []).length ≤ 2 ^ 30 + 2 ^ 29 := by
+        unfold pyIntPart
+        cases hg : p.grouping with
+        | none => simp only []; omega
+        | some g =>
+          simp only []
+          split
+          · simp
+          · split
+            · unfold pyGroupPad
+              rcases hk with rfl | rfl
+              · have := padSearch_length3 g (p.width.getD 0 - lead.length - ([] : List Nat).length)
+                  (p.width.getD 0 - lead.length - ([] : List Nat).length) raw
+                omega
+              · have := padSearch_length4 g (p.width.getD 0 - lead.length - ([] : List Nat).length)
+                  (p.width.getD 0 - lead.length - ([] : List Nat).length) raw
+                omega
+            · rcases hk with rfl | rfl
+              · rw [groupRight_length 3 (by omega) _ isCnt3 g raw.length raw rfl]; omega
+              · rw [groupRight_length 4 (by omega) _ isCnt4 g raw.length raw rfl]; omega
+      generalize pyIntPart p k lead raw [] = mag at *
+      have hu : utf8Len mag = mag.length :=
+        utf8Len_like mag (by
+          rw [List.all_eq_true] at hmag_ascii ⊢
+          intro x hx; have := hmag_ascii x hx; simpa [isAscii] using this)
+      rw [hu, formatSignAndAlign_eq (normOf p) mag lead mag.length .right hw (by omega) rfl]
+      rw [normOf_fill, normOf_alignNum p wf, hwd]
+      simp only [Res.view, List.append_nil]
+
+
+def commaBad : FType → Bool
+  | .string | .character | .binary | .octal | .hex _ | .number _ => true
+  | _ => false
+
+def underBad : FType → Bool
+  | .string | .character | .number _ => true
+  | _ => false
+
+theorem validateFormat_eq (p : PySpec) (wf : WfSpec p) (d : FType) :
+    validateFormat (normOf p) d =
+      match p.grouping with
+      | none => .ok ()
+      | some g =>
+        if g = 44 then (if commaBad ((p.type.bind typeOfChar).getD d) then .error .unspecifiedFormat else .ok ())
+        else (if underBad ((p.type.bind typeOfChar).getD d) then .error .unspecifiedFormat else .ok ()) := by
+  unfold validateFormat
+  have hft : (normOf p).ftype = p.type.bind typeOfChar := rfl
+  have hgr : (normOf p).grouping = p.grouping.bind groupingOfChar := rfl
+  rw [hft, hgr]
+  cases hg : p.grouping with
+  | none => rfl
+  | some g =>
+    have hgg := wf.grouping g hg
+    simp only [isGrouping, Bool.or_eq_true, decide_eq_true_eq] at hgg
+    rcases hgg with h | h <;> subst h <;>
+      simp only [Option.bind_some, groupingOfChar] <;>
+      cases (p.type.bind typeOfChar).getD d <;> simp [commaBad, underBad]
+
+/-- none of the listed integer deviations applies -/
+def intShapeFree (p : PySpec) (n : Int) : Bool :=
+  if p.type = some 99 then
+    p.sign.isSome || p.alt || p.grouping.isSome ||
+      (p.precision.isNone && !isSurrogate n.toNat && (decide (n < 128) || decide (p.width.getD 0 ≤ 1)))
+  else !(p.grouping.isSome && p.width.isSome) || zeroEq p
+
+def InDomainInt (p : PySpec) (n : Int) : Bool :=
+  boundsOkInt p n && !isFloatType p.type && intShapeFree p n
+
+theorem intShapeFree_radix (p : PySpec) (n : Int) (h : intShapeFree p n = true) (hc : p.type ≠ some 99) :
+    (p.grouping.isSome && p.width.isSome) = false ∨ zeroEq p = true := by
+  unfold intShapeFree at h
+  rw [if_neg hc] at h
+  simpa only [Bool.or_eq_true, Bool.not_eq_true'] using h
+
+theorem hval_of (p : PySpec) (wf : WfSpec p) (commaOk sepOk : Bool) (ft : FType)
+    (hft : (p.type.bind typeOfChar).getD .decimal = ft) (hc : commaBad ft = !commaOk)
+    (hu : underBad ft = !sepOk) :
+    validateFormat (normOf p) .decimal =
+      if (p.grouping = some 44 ∧ commaOk = false) ∨ (p.grouping = some 95 ∧ sepOk = false)
+      then .error .unspecifiedFormat else .ok () := by
+  rw [validateFormat_eq p wf, hft, hc, hu]
+  cases hg : p.grouping with
+  | none => simp
+  | some g =>
+    have hgg := wf.grouping g hg
+    simp only [isGrouping, Bool.or_eq_true, decide_eq_true_eq] at hgg
+    rcases hgg with h | h <;> subst h <;> cases commaOk <;> cases sepOk <;> simp
+
+theorem formatSignAndAlign_nopad (spec : FormatSpec) (mag sign : List Nat) (n : Nat) (dflt : Align)
+    (hw : ∀ w, spec.width = some w → w ≤ n + sign.length) (hm : n + sign.length < 2 ^ 30) :
+    formatSignAndAlign spec mag n sign dflt = some (sign ++ mag) := by
+  unfold formatSignAndAlign computeFillString
+  cases hwd : spec.width with
+  | none =>
+    simp only []
+    cases spec.align.getD dflt <;> simp
+  | some w =>
+    have hw' := hw w hwd
+    simp only []
+    rw [wrapI32_small w (by omega), wrapI32_small n (by omega), wrapI32_small sign.length (by omega)]
+    rw [chkI32_ok _ (by omega) (by omega)]
+    simp only []
+    rw [chkI32_ok _ (by omega) (by omega)]
+    simp only []
+    have e1 : (max 0 ((w : Int) - n - sign.length)).toNat = 0 := by omega
+    have e2 : (max 0 ((w : Int) - n - sign.length) / 2).toNat = 0 := by omega
+    have e3 : (max 0 ((w : Int) - n - sign.length) - max 0 ((w : Int) - n - sign.length) / 2).toNat = 0 := by omega
+    cases spec.align.getD dflt <;> simp [e1, e2, e3]
+
+theorem formatInt_eq (p : PySpec) (n : Int) (wf : WfSpec p) (hz : p.z = false)
+    (hd : InDomainInt p n = true) :
+    (formatInt (normOf p) n).view = some (pyFormatInt p n) := by
+  simp only [InDomainInt, Bool.and_eq_true, Bool.not_eq_true'] at hd
+  obtain ⟨⟨hb, hfl⟩, hsh⟩ := hd
+  unfold pyFormatInt
+  rw [if_neg (by simp [hfl]), if_neg (by simp [hz])]
+  simp only []
+  have hft : (normOf p).ftype = p.type.bind typeOfChar := rfl
+  have hal : (normOf p).alt = p.alt := rfl
+  cases ht : p.type with
+  | none =>
+    have hsh' := intShapeFree_radix p n hsh (by simp [ht])
+    exact radix_case p n wf 10 false [] 3 true true (by omega) (by omega) (by simp)
+      (by simp [intMagnitude, hft, ht]) (by simp [intPrefix, hft, ht])
+      (by rw [validateFormat_eq p wf, ht]; cases hg : p.grouping <;> simp [commaBad, underBad])
+      (by simp [getSeparatorInterval, hft, ht]) hb hsh'
+  | some t =>
+    rcases isType_cases t (wf.type t ht) with h | h | h | h | h | h | h | h | h | h | h | h | h | h | h <;> subst h
+    · -- b
+      exact radix_case p n wf 2 false [48, 98] 4 false true (by omega) (by omega) (by simp)
+        (by simp [intMagnitude, hft, ht, typeOfChar]) (by simp [intPrefix, hft, hal, ht, typeOfChar])
+        (hval_of p wf false true .binary (by simp [ht, typeOfChar]) rfl rfl)
+        (by simp [getSeparatorInterval, hft, ht, typeOfChar]) hb (intShapeFree_radix p n hsh (by simp [ht]))
+    · -- c
+      have hsh' : (p.sign.isSome || p.alt || p.grouping.isSome ||
+          (p.precision.isNone && !isSurrogate n.toNat && (decide (n < 128) || decide (p.width.getD 0 ≤ 1)))) = true := by
+        unfold intShapeFree at hsh; rw [if_pos ht] at hsh; exact hsh
+      unfold formatInt
+      rw [validateFormat_eq p wf, ht]
+      cases hg : p.grouping with
+      | some g =>
+        simp only [Option.bind_some, typeOfChar, Option.getD_some, commaBad, underBad, if_true, ite_self]
+        simp [Res.view]
+      | none =>
+        simp only []
+        have hsg : (normOf p).sign = p.sign.bind signOfChar := rfl
+        cases hs : p.sign with
+        | some c =>
+          obtain ⟨x, hx⟩ := signOfChar_some c (wf.sign c hs)
+          simp [intMagnitude, hft, ht, typeOfChar, hsg, hs, hx, Res.bind, Res.view]
+        | none =>
+          cases ha : p.alt with
+          | true => simp [intMagnitude, hft, ht, typeOfChar, hsg, hs, hal, ha, Res.bind, Res.view]
+          | false =>
+            simp only [hs, ha, hg, Option.isSome_none, Bool.false_or, Bool.or_false, Bool.and_eq_true,
+              Bool.not_eq_true', Bool.or_eq_true, decide_eq_true_eq, Option.isNone_iff_eq_none] at hsh'
+            obtain ⟨⟨hpn, hsur⟩, hsmall⟩ := hsh'
+            by_cases hrange : 0 ≤ n ∧ n.toNat ≤ 0x10ffff
+            · have hpy : ¬ (n < 0 ∨ n > 0x10ffff) := by omega
+              simp only [intMagnitude, hft, ht, typeOfChar, Option.bind_some, hsg, hs, Option.bind_none,
+                Option.isSome_none, Bool.false_eq_true, if_false, hal, ha, hrange, and_self, if_true, hsur,
+                Res.bind, hpn, if_neg hpy]
+              have hsp : sSign (decide (n < 0)) none ++ intPrefix (normOf p) = [] := by
+                have : ¬ n < 0 := by omega
+                simp [sSign, intPrefix, hal, ha, this]
+              rw [hsp]
+              have hgr : (normOf p).grouping = none := by simp [normOf, hg]
+              simp only [addMagnitudeSeparators, hgr, Res.ofOption]
+              have hwd : (normOf p).width = p.width := rfl
+              rcases hsmall with hlt | hw1
+              · have hu : utf8Len [n.toNat] = 1 := by
+                  have : n.toNat < 128 := by omega
+                  simp [utf8Len, utf8Len1, this]
+                have hbw : p.width.getD 0 < 2 ^ 30 := by
+                  simp only [boundsOkInt, Bool.and_eq_true, decide_eq_true_eq] at hb; exact hb.1.1
+                rw [hu, formatSignAndAlign_eq (normOf p) [n.toNat] [] 1 .right
+                  (by intro w hw'; rw [hwd] at hw'; rw [hw'] at hbw; simp at hbw; omega) (by simp) rfl]
+                rw [normOf_fill, normOf_alignNum p wf, hwd]
+                simp [Res.view]
+              · have hu : 1 ≤ utf8Len [n.toNat] ∧ utf8Len [n.toNat] ≤ 4 := by
+                  simp only [utf8Len, utf8Len1]; split <;> (try split) <;> (try split) <;> omega
+                rw [formatSignAndAlign_nopad (normOf p) [n.toNat] [] _ .right
+                  (by intro w hw'; rw [hwd] at hw'; rw [hw'] at hw1; simp at hw1 ⊢; omega) (by simp; omega)]
+                rw [pyPad_nopad _ _ _ _ _ (by simp; omega)]
+                simp [Res.view]
+            · have hpy : n < 0 ∨ n > 0x10ffff := by omega
+              have hr' : ¬ (0 ≤ n ∧ n ≤ 1114111) := by omega
+              simp [intMagnitude, hft, ht, typeOfChar, hsg, hs, hal, ha, hr', Res.bind, Res.view, hpn, hpy]
+    · -- d
+      exact radix_case p n wf 10 false [] 3 true true (by omega) (by omega) (by simp)
+        (by simp [intMagnitude, hft, ht, typeOfChar]) (by simp [intPrefix, hft, hal, ht, typeOfChar])
+        (hval_of p wf true true .decimal (by simp [ht, typeOfChar]) rfl rfl)
+        (by simp [getSeparatorInterval, hft, ht, typeOfChar]) hb (intShapeFree_radix p n hsh (by simp [ht]))
+    · simp [isFloatType, ht] at hfl
+    · simp [isFloatType, ht] at hfl
+    · simp [isFloatType, ht] at hfl
+    · simp [isFloatType, ht] at hfl
+    · simp [isFloatType, ht] at hfl
+    · simp [isFloatType, ht] at hfl
+    · -- n
+      exact radix_case p n wf 10 false [] 3 false false (by omega) (by omega) (by simp)
+        (by simp [intMagnitude, hft, ht, typeOfChar]) (by simp [intPrefix, hft, hal, ht, typeOfChar])
+        (hval_of p wf false false (.number false) (by simp [ht, typeOfChar]) rfl rfl)
+        (by simp [getSeparatorInterval, hft, ht, typeOfChar]) hb (intShapeFree_radix p n hsh (by simp [ht]))
+    · -- o
+      exact radix_case p n wf 8 false [48, 111] 4 false true (by omega) (by omega) (by simp)
+        (by simp [intMagnitude, hft, ht, typeOfChar]) (by simp [intPrefix, hft, hal, ht, typeOfChar])
+        (hval_of p wf false true .octal (by simp [ht, typeOfChar]) rfl rfl)
+        (by simp [getSeparatorInterval, hft, ht, typeOfChar]) hb (intShapeFree_radix p n hsh (by simp [ht]))
+    · -- s: rejected by both
+      unfold formatInt
+      rw [validateFormat_eq p wf, ht]
+      cases hg : p.grouping with
+      | none => simp [intMagnitude, hft, ht, typeOfChar, Res.bind, Res.view]
+      | some g =>
+        simp only [Option.bind_some, typeOfChar, Option.getD_some, commaBad, underBad, if_true, ite_self]
+        simp [Res.view]
+    · -- x
+      exact radix_case p n wf 16 false [48, 120] 4 false true (by omega) (by omega) (by simp)
+        (by simp [intMagnitude, hft, ht, typeOfChar]) (by simp [intPrefix, hft, hal, ht, typeOfChar])
+        (hval_of p wf false true (.hex false) (by simp [ht, typeOfChar]) rfl rfl)
+        (by simp [getSeparatorInterval, hft, ht, typeOfChar]) hb (intShapeFree_radix p n hsh (by simp [ht]))
+    · -- X
+      exact radix_case p n wf 16 true [48, 88] 4 false true (by omega) (by omega) (by simp)
+        (by simp [intMagnitude, hft, ht, typeOfChar]) (by simp [intPrefix, hft, hal, ht, typeOfChar])
+        (hval_of p wf false true (.hex true) (by simp [ht, typeOfChar]) rfl rfl)
+        (by simp [getSeparatorInterval, hft, ht, typeOfChar]) hb (intShapeFree_radix p n hsh (by simp [ht]))
+    · simp [isFloatType, ht] at hfl
+
+
+def Value.toPy : Value → PyValue
+  | .int n => .int n | .float b => .float b | .str s => .str s | .bool b => .bool b
+
+/-- a spec the reference grammar rejects is rejected by the Rust parser, or parsed with the
+    presentation type `N` (which every `format_*` rejects) -/
+theorem parse_of_py_none (s : List Nat) (hp : pyParseSpec s = none) (hc : hasConvPrefix s = false) :
+    (∃ e, parseSpec s = .error e) ∨ (∃ r, parseSpec s = .ok r ∧ r.ftype = some (.number true)) := by
+  cases h : parseSpec s with
+  | error e => exact Or.inl ⟨e, rfl⟩
+  | ok r =>
+    right
+    refine ⟨r, rfl, ?_⟩
+    apply Classical.byContradiction
+    intro hN
+    obtain ⟨p, hp', _⟩ := parse_spec_sound s r h hc hN
+    rw [hp] at hp'; cases hp'
+
+theorem formatInt_N (r : FormatSpec) (n : Int) (h : r.ftype = some (.number true)) :
+    ∃ e, formatInt r n = .err e := by
+  unfold formatInt validateFormat
+  rw [h]
+  cases r.grouping with
+  | none => simp [intMagnitude, h, Res.bind]
+  | some g => cases g <;> simp
+
+theorem formatString_N (r : FormatSpec) (s : List Nat) (h : r.ftype = some (.number true)) :
+    ∃ e, formatString r s = .err e := by
+  unfold formatString validateFormat
+  rw [h]
+  cases r.grouping with
+  | none => simp
+  | some g => cases g <;> simp
+
+theorem formatFloat_N (r : FormatSpec) (b : Nat) (h : r.ftype = some (.number true)) :
+    ∃ e, formatFloat r b = .err e := by
+  unfold formatFloat validateFormat
+  rw [h]
+  cases r.grouping with
+  | none => simp [floatMagnitude, h, Res.bind]
+  | some g => cases g <;> simp
+
+theorem formatBool_N (r : FormatSpec) (b : Bool) (h : r.ftype = some (.number true)) :
+    ∃ e, formatBool r b = .err e := by
+  unfold formatBool
+  rw [h]
+  exact ⟨_, rfl⟩
 
 
 end PV.C18
